@@ -453,6 +453,10 @@ def mapping_to_items(mapping: LineMapping, is_linetable: bool) -> CollapsedItems
     last_bytecode_offset = 0
 
     for bytecode_offset, line_number in mapping.offset_to_line.items():
+        # The co_lnotab cannot represent bytecode with no line, so it stays on the
+        # previous line
+        if line_number is None:
+            continue
         additional_line_offsets = mapping.offset_to_additional_line_offsets.get(
             bytecode_offset, []
         )
